@@ -5,9 +5,10 @@ proof : Properties_C06.v -- C06_tb_equals_sim_partial composes C03 (RTL refines 
 oracle: the REAL hextb executable (3 Verilator seeds, --max-cycles) against the REAL hexsim executable, both built from
         the working tree: stdout after hextb's load banner, exit status, console input consumed (through the two
         harnesses that link hextb.cpp's run() / hexsim's Processor) -- and both against the extracted ISA run.
-        Only (binary, input) pairs whose ISA run the monitor accepts (TbModel.wb_mon: defined, in range, read-safe, never
-        reads a word the image did not initialise or the run did not write) and that
-        exit are judged; the others are run, counted and reported."""
+        Only (binary, input) pairs whose ISA run the monitor accepts (TbModel.safe_mon: defined, in range, read-safe) and
+        that exit are judged; the others are run, counted and reported.  Which words a program reads plays no role:
+        since load() clears hextb's memory, programs that read words they never wrote (tests/asm/hello_procedure.S) are
+        judged like any other."""
 import glob, json, os, sys
 sys.path.insert(0, os.path.dirname(os.path.abspath(__file__)))
 import vlib, gen_rtl, tbcommon
@@ -50,8 +51,8 @@ def main():
                               'TbModel.v hand model of hextb.cpp (tied by ./check C13), SimModel.v hand model of hexsim.hpp (tied by ./check C02)',
                               'generated RTL (tools/vl2coq.py, validated by ./check C03) and RtlSem.v',
                               'ExtrOcamlBasic extraction + ocaml/tbdrv.ml (ISA monitor)', 'Verilator 5.006, g++ 12; harness/tb_harness.cpp, harness/sim_harness.cpp']
-    ck.assumptions = ['judged: ISA run exits, is defined, stays below byte address 800000, READ does not overwrite its own SVC, '
-                      'and no word outside the header-announced image is read before it is written (the two loaders differ beyond the image; RTL memory is random there)',
+    ck.assumptions = ['judged: ISA run exits, is defined, stays below byte address 800000, READ does not overwrite its own SVC '
+                      '(nothing is assumed about which words are read: both loaders leave zero outside the header-announced image; known_findings.json: fixed, kind power-on / how memory)',
                       'KNOWN FINDING (known_findings.json, kind read-overwrites-own-svc), inside the literal quantifier and exhibited on every run by a hand-assembled binary: '
                       'a READ whose result slot is the word holding its own SVC -- hextb retires the overwritten byte (hypothesis read clause of step_safe in C06_tb_equals_sim_partial)',
                       'binaries whose first instruction is a system call are ordinary judged inputs since the repair of hextb.cpp (known_findings.json: fixed, kind first-instruction-svc)',
